@@ -47,6 +47,9 @@ T = {
  "C15": ("TLC-computed exact geometric Jacobian columns on the lattice (Gen_Jacobian, on top of the Gen_Chain model) replayed into Jacobian::new + trace validation of random robots/stacks (Trace_Jacobian)",
          "Axis x lever and axis of every joint are computed exactly by TLC from the link poses of the chain model for all lattice chains with up to three generic joints; the code's finite-difference matrix is compared column by column for three step sizes; torques, velocities and the isometry/vector entry points are judged by the trace spec from oracle facts.",
          "The matrix field is private and is observed through torques_from_vector(unit vectors); tolerance 20*eps*(1+reach).", "4/C15"),
+ "C17": ("TLC model of point triples under exact lattice rigid motions (Gen_Frame3: actions ChooseRot, ChooseShift; invariant Rigid) replayed into Frame::frame with perturbation families + trace validation of forward_transformed (Trace_Frame)",
+         "For every triple x motion TLC prints the exact images and the generating motion; the constructed frame must equal it and map every point to its image; collinear / coincident sources, exactly collinear targets, +3 mm / +8 mm congruence perturbations and mirrored targets must give the stated outcome; forward_transformed is judged by the trace spec from oracle facts.",
+         "Tolerance 1e-9 (1e-6 for the nearly collinear triple).", "4/C17"),
 }
 
 REASON_TODO = "check not built yet in this round (planned, see DESIGN.md section 9); not claimed until it runs"
